@@ -335,6 +335,12 @@ def _setup_i(ctx, forced=None):
 
 
 # ---------------------------------------------------------------------------
+def _tog(cl):
+    if cl.state is None:
+        raise Nonconformance("transfer-ended-by-server", "the server had already ended (aborted) a valid transfer")
+    return cl.state["toggle"]
+
+
 def _setup_ii(ctx, fpos=None, fdir=None):
     node_id = 1 + ctx.choice(127, "node")
     od, entries = srvside.gen_od(ctx, 64)
@@ -370,7 +376,7 @@ def _setup_ii(ctx, fpos=None, fdir=None):
                     r = cl.init_upload(e.index, e.sub)
                     for _ in range(pos):
                         cl.upload_segment()
-                    t = cl.state["toggle"] ^ 1
+                    t = _tog(cl) ^ 1
                     rs = cl.exchange(bytes([0x60 | t << 4, 0, 0, 0, 0, 0, 0, 0]))
                     cl.state = None
                     _judge_frame_refusal(ctx, w, what, "toggle-up", rs, {TOGGLE}, (e.index, e.sub), snap, nlog, pos)
@@ -386,7 +392,7 @@ def _setup_ii(ctx, fpos=None, fdir=None):
                     for j in range(pos):
                         cl.download_segment(data[7 * j:7 * j + 7], False)
                     last = pos == nseg - 1
-                    t = cl.state["toggle"] ^ 1
+                    t = _tog(cl) ^ 1
                     chunk = data[7 * pos:7 * pos + 7]
                     n = 7 - len(chunk)
                     rs = cl.exchange(bytes([t << 4 | n << 1 | (1 if last else 0)]) + chunk + bytes(n))
@@ -410,7 +416,7 @@ def _setup_ii(ctx, fpos=None, fdir=None):
                     cl.init_download(e.index, e.sub, data, "seg" if ctx.choice(2, "sz") else "seg-nosize")
                     for j in range(nseg - 1):
                         cl.download_segment(data[7 * j:7 * j + 7], False)
-                    t = cl.state["toggle"]
+                    t = _tog(cl)
                     cl.exchange(bytes([0x40, b.index & 0xFF, b.index >> 8, b.sub, 0, 0, 0, 0]))
                     chunk = data[7 * (nseg - 1):]
                     n = 7 - len(chunk)
